@@ -31,7 +31,7 @@ Definition out_json (r : eres (st * json)) : json :=
   match r with
   | Done (s, j) =>
       (* the implementation's result is a typed document: what is observed is its encoding *)
-      let j' := match norm gen_env j (TNamed "Swagger") with ROk v => v | _ => j end in
+      let j' := match norm gen_env false j (TNamed "Swagger") with ROk v => v | _ => j end in
       JObj [("err", JBool false); ("out", j'); ("loads", JArr (map JStr (rev (log s))))]
   | Failed sf => JObj [("err", JBool true); ("out", JNull); ("loads", JArr (map JStr (rev (log sf))))]
   | OOF => JObj [("oof", JBool true)]
@@ -46,7 +46,7 @@ Definition run_expand (c : json) : json :=
   let fuel := fold_left (fun n kv => n + count_refs (snd kv)) all 0 + count_refs (jget "element" c) + 6 in
   if op =? "expand_spec" then
     match assoc root all with
-    | Some d => match norm gen_env d (TNamed "Swagger") with
+    | Some d => match norm gen_env false d (TNamed "Swagger") with
                 | ROk nd => out_json (expand_spec gen_env served "/" (opts_of c) root (Some (root, nd)) fuel root nd s0)
                 | RErr => JObj [("err", JBool true); ("out", JNull); ("loads", JArr [])]
                 | RUnsup => JObj [("unsupported", JBool true)]
@@ -60,7 +60,7 @@ Definition run_expand (c : json) : json :=
     let live := if mode =? "none" then None
                 else match rdoc with
                      | Some d => if mode =? "typed"
-                                 then match norm gen_env d (TNamed "Swagger") with ROk nd => Some (root, nd) | _ => Some (root, d) end
+                                 then match norm gen_env false d (TNamed "Swagger") with ROk nd => Some (root, nd) | _ => Some (root, d) end
                                  else Some (root, d)
                      | None => None
                      end in
